@@ -689,6 +689,12 @@ def r17_name_keyed_state(c, facts, rule='C08.R17'):
         if not keyed and name != 'scopes' and re.search(r'\boal_syntax::atom::Ident\b', ty):
             keyed = True
         inst = {'field': name, 'type': ty[:120]}
+        # ... or a run-wide cache of *values* under a key that does not say in which scope they were computed
+        # (`HashMap<External, Lambda>`: the function a call site applied under the bindings of an earlier application)
+        mkey = re.match(r'^(?:[\w:]*::)?(?:IndexMap|HashMap|BTreeMap)<(.*)$', ty)
+        if not keyed and name not in ('refs', 'scopes', 'mods') and mkey and not re.search(r'\bu64\b|ScopeId', mkey.group(1).split(',')[0] if not mkey.group(1).startswith('(') else mkey.group(1).split(')')[0]):
+            c.bad(R, 'context-cache-without-scope:' + name, 'eval::Context.%s caches values for the whole run under a key that does not identify the scope of evaluation: what a parameter or rec binder stood for in one application is answered again in another' % name, **inst)
+            continue
         if not keyed:
             c.ok(R, inst)
         else:
